@@ -95,10 +95,12 @@ theorem inv_fromFen (h : Hasher) (s : List Char) (p : Pos) (hc : fromFen h s = .
   rw [hep] at ht
   cases ht
 
-/-- what the applier relies on: a pawn moving diagonally onto an empty square has an enemy pawn
-    beside it (en passant); a five-character move is made by a pawn of the side to move -/
+/-- what the applier relies on, for the two squares the text names: a pawn moving diagonally onto an
+    empty square has an enemy pawn beside it (en passant); a five-character move is made by a pawn
+    of the side to move.  Every legal move text satisfies this (`legal_text_ok`, Props/C04). -/
 def MoveTextOK (p : Pos) (mv : List Char) : Prop :=
-  (∀ sp ep : Point, ∀ piece : Piece, p.board.get sp.row sp.col = .full piece → piece.kind = .pawn →
+  (∀ (s1 s2 : List Char) (sp ep : Point) (piece : Piece), Str.byteSlice mv 0 2 = some s1 → Str.byteSlice mv 2 4 = some s2 →
+      parsePoint? s1 = some sp → parsePoint? s2 = some ep → p.board.get sp.row sp.col = .full piece → piece.kind = .pawn →
       sp.col ≠ ep.col → p.board.get ep.row ep.col = .empty → p.board.get sp.row ep.col = .full ⟨p.toMove.opp, .pawn⟩) ∧
   (∀ sp : Point, ∀ piece : Piece, Str.byteLen mv = 5 → p.board.get sp.row sp.col = .full piece →
       (∃ s1, Str.byteSlice mv 0 2 = some s1 ∧ parsePoint? s1 = some sp) → piece = ⟨p.toMove, .pawn⟩)
